@@ -135,6 +135,50 @@ func VariadicAppend(p *core.Prog, r *core.Report) {
 		vp := f.Params[len(f.Params)-1]
 		n++
 		bad := ""
+		// the caller's slice handed on to a helper of the package that appends to / stores through it
+		var through func(g *ssa.Function, k int, d int) string
+		through = func(g *ssa.Function, k int, d int) string {
+			if g == nil || d > 3 || !p.InSubject(g) || k >= len(g.Params) {
+				return ""
+			}
+			prm := g.Params[k]
+			res := ""
+			core.EachInstr(g, func(i ssa.Instruction) {
+				switch x := i.(type) {
+				case *ssa.Call:
+					if b, isB := x.Call.Value.(*ssa.Builtin); isB && b.Name() == "append" && len(x.Call.Args) > 0 && x.Call.Args[0] == ssa.Value(prm) {
+						res = p.Pos(x.Pos())
+					}
+					if h := core.StaticCallee(x); h != nil {
+						for j, a := range x.Call.Args {
+							if a == ssa.Value(prm) {
+								if w := through(h, j, d+1); w != "" {
+									res = w
+								}
+							}
+						}
+					}
+				case *ssa.Store:
+					if ia, ok := x.Addr.(*ssa.IndexAddr); ok && ia.X == ssa.Value(prm) {
+						res = p.Pos(x.Pos())
+					}
+				}
+			})
+			return res
+		}
+		core.EachInstr(f, func(i ssa.Instruction) {
+			if c, ok := i.(*ssa.Call); ok {
+				if h := core.StaticCallee(c); h != nil && p.InSubject(h) {
+					for j, a := range c.Call.Args {
+						if a == ssa.Value(vp) && !(h.Signature.Variadic() && j == len(h.Params)-1) {
+							if w := through(h, j, 1); w != "" {
+								bad = w + " (through " + core.FuncName(h) + ")"
+							}
+						}
+					}
+				}
+			}
+		})
 		core.EachInstr(f, func(i ssa.Instruction) {
 			c, ok := i.(*ssa.Call)
 			if !ok {
